@@ -1,29 +1,35 @@
-# unit `flag`: crates/supervisor/src/flag.rs — serves C07 (every waiting task is woken)
+# unit `flag`: crates/supervisor/src/flag.rs + Ticket::poll — serves C07 (every waiting task is woken)
 F = "crates/supervisor/src/flag.rs"
+M = "crates/supervisor/src/job/messages.rs"
 UNIT = dict(
     name="flag",
     prelude=["flag_env.rs"],
     spec=["spec.rs"],
     rules=dict(
-        env_methods=["load", "store", "wake", "push", "vx_lock", "vx_iter_any"],
+        env_methods=["load", "store", "wake", "push", "vx_lock", "vx_iter_any", "poll", "raised"],
         env_paths=["vx_take_guard"],
         pre_subst=[
             ('.lock().expect("flag wakers lock poisoned")', ".vx_lock()"),
             ("std::mem::take(&mut *", "vx_take_guard("),
             (".iter().any(", ".vx_iter_any("),
             ("Relaxed", "Relaxed()"),
+            # polling through a Pin is calling poll; mapping a future's output to () does not change when it is ready
+            ("Pin::new(&mut ", "(&mut "),
+            (".map(|_| ())", ""),
+            ("self.get_mut()", "self"),
         ],
         subst=[
             ("Arc<Inner>", "Inner"),
             ("Mutex<Vec<Waker>>", "WakerMutex"),
-            ("Poll::Ready(())", "Poll::Ready(())"),
         ],
     ),
     extract=[
         dict(id="Inner", kind="type", src=F, name="Inner"),
         dict(id="Flag", kind="type", src=F, name="Flag", drop_derive=["Clone"]),
+        dict(id="Ticket", kind="type", src=M, name="Ticket", drop_derive=["Clone"]),
         dict(id="Flag::raised", kind="fn", src=F, impl="impl Flag", name="raised"),
         dict(id="Flag::raise", kind="fn", src=F, impl="impl Flag", name="raise"),
         dict(id="Flag::poll", kind="fn", src=F, impl="impl Future for Flag", name="poll", emit_impl="impl Flag"),
+        dict(id="Ticket::poll", kind="fn", src=M, impl="impl Future for Ticket", name="poll", emit_impl="impl Ticket"),
     ],
 )
